@@ -371,7 +371,13 @@ class BalWorld(object):
                       'active set grew from %d to %d with no load-driven expansion, no failed or downed member, no membership change and jitter off' % (
                         self.last_active, na), {})
     self.prev_settle = now_
-    if not self.had_down and not ap.get('jitter_min_sec') and na > max(ap['max_size'], ap['min_size']):
+    # (growth that coincides with a membership change is the replacement of a
+    # departed member, which is not bounded by max_size: with channels that
+    # complete their requests in-line when closed, the completion's load
+    # adjustment refills the emptied aperture and the replacement adds another)
+    if not self.had_down and not ap.get('jitter_min_sec') and na > max(ap['max_size'], ap['min_size']) \
+        and self.last_active is not None and na > self.last_active \
+        and prev_ is not None and prev_['delivered'] == now_['delivered'] and prev_['quiet'] and now_['quiet']:
       REC.violation('C06', 'grew_beyond_max', 'active set has %d members, max_size %d' % (na, ap['max_size']))
     self.last_active = na
     src = Source(service='svc')
